@@ -53,6 +53,10 @@ type ServiceRouter struct {
 	// map from target name to its gRPC service names,
 	// used for keeping track of a service's routes and manipulating the routing mapping on updates.
 	svcRoutes map[string][]protoreflect.FullName
+
+	// claims of targets listing a service which is currently routed to another target, in claim order.
+	// When the owner releases such a service (by an update or by closing), it is handed over to the first waiting claimant.
+	waiting map[protoreflect.FullName][]serviceRoute
 }
 
 // NewServiceRouter initializes a new [ServiceRouter] with the specified connection pool and options.
@@ -68,6 +72,7 @@ func NewServiceRouter(pool grpcadapter.ClientPool, opts ServiceRouterOpts) *Serv
 		logger:     opts.Logger.WithComponent("grpcbridge.routing"),
 		watcherSet: syncset.New[string](),
 		svcRoutes:  make(map[string][]protoreflect.FullName),
+		waiting:    make(map[protoreflect.FullName][]serviceRoute),
 	}
 }
 
@@ -260,6 +265,8 @@ func (sr *ServiceRouter) updateRoutes(desc *bridgedesc.Target) {
 				"previous_target", route.(serviceRoute).target.Name,
 				"new_target", desc.Name,
 			)
+			// Remember the claim (with the latest description), the service is handed over once its owner releases it.
+			sr.recordClaim(svc.Name, newRoute)
 			continue
 		} else {
 			// The route is already owned by this target, but it must point to the new description,
@@ -268,21 +275,85 @@ func (sr *ServiceRouter) updateRoutes(desc *bridgedesc.Target) {
 		}
 
 		// Mark route as present to avoid removing it
-		presentSvcRoutes[svc.Name] = struct{}{}
-		newSvcRoutes = append(newSvcRoutes, svc.Name)
+		if _, ok := presentSvcRoutes[svc.Name]; !ok {
+			presentSvcRoutes[svc.Name] = struct{}{}
+			newSvcRoutes = append(newSvcRoutes, svc.Name)
+		}
 	}
 
 	verifhook.Point("service.update.betweenPhases", desc.Name)
+
+	// Forget claims for services which this target doesn't list anymore
+	listed := make(map[protoreflect.FullName]struct{}, len(desc.Services))
+	for i := range desc.Services {
+		listed[desc.Services[i].Name] = struct{}{}
+	}
+
+	for svc := range sr.waiting {
+		if _, ok := listed[svc]; !ok {
+			sr.dropClaim(svc, desc.Name)
+		}
+	}
 
 	// Remove outdated routes
 	for _, route := range sr.svcRoutes[desc.Name] {
 		if _, ok := presentSvcRoutes[route]; !ok {
 			sr.logger.Debug("removing route", "target", desc.Name, "service", route)
-			sr.routes.Delete(route)
+			sr.release(route)
 		}
 	}
 
 	sr.svcRoutes[desc.Name] = newSvcRoutes
+}
+
+// recordClaim remembers that a target lists a service currently routed to another target,
+// keeping the order of the claims and only the latest route of each claimant.
+func (sr *ServiceRouter) recordClaim(svc protoreflect.FullName, route serviceRoute) {
+	claims := sr.waiting[svc]
+	for i := range claims {
+		if claims[i].target.Name == route.target.Name {
+			claims[i] = route
+			return
+		}
+	}
+
+	sr.waiting[svc] = append(claims, route)
+}
+
+// dropClaim forgets the claim of a target for a service.
+func (sr *ServiceRouter) dropClaim(svc protoreflect.FullName, target string) {
+	claims := sr.waiting[svc]
+	for i := range claims {
+		if claims[i].target.Name == target {
+			if claims = append(claims[:i:i], claims[i+1:]...); len(claims) == 0 {
+				delete(sr.waiting, svc)
+			} else {
+				sr.waiting[svc] = claims
+			}
+			return
+		}
+	}
+}
+
+// release is called when the owner of a service stops serving it:
+// the service is handed over to the earliest waiting claimant with a single store, or removed if there is none.
+func (sr *ServiceRouter) release(svc protoreflect.FullName) {
+	claims := sr.waiting[svc]
+	if len(claims) == 0 {
+		sr.routes.Delete(svc)
+		return
+	}
+
+	next := claims[0]
+	if len(claims) == 1 {
+		delete(sr.waiting, svc)
+	} else {
+		sr.waiting[svc] = claims[1:]
+	}
+
+	sr.logger.Debug("handing over route", "target", next.target.Name, "service", svc)
+	sr.routes.Store(svc, next)
+	sr.svcRoutes[next.target.Name] = append(sr.svcRoutes[next.target.Name], svc)
 }
 
 func (sr *ServiceRouter) removeTarget(target string) {
@@ -292,10 +363,14 @@ func (sr *ServiceRouter) removeTarget(target string) {
 	routes := sr.svcRoutes[target]
 
 	for _, route := range routes {
-		sr.routes.Delete(route)
+		sr.release(route)
 	}
 
 	delete(sr.svcRoutes, target)
+
+	for svc := range sr.waiting {
+		sr.dropClaim(svc, target)
+	}
 }
 
 func parseRPCName(rpcName string) (protoreflect.FullName, string, bool) {
